@@ -175,17 +175,28 @@ def run_batch(batch, ctx):
             persistent = case['stored'] is not None and case['kind'] == 'Input'
             if persistent:
                 dict.__setitem__(storage, f"<Input 'b{i}'>", DOMAIN[case['stored']])
-            if case['kind'] == 'Input':
-                blk = edzed.Input(f"b{i}", initdef=DOMAIN[case['initdef']],
-                                  persistent=persistent, **kw)
-            else:
-                blk = edzed.InputExp(f"b{i}", duration=10 ** 6, initdef=DOMAIN[case['initdef']],
-                                     expired=DOMAIN[case['expired']], **kw)
+            try:
+                if case['kind'] == 'Input':
+                    blk = edzed.Input(f"b{i}", initdef=DOMAIN[case['initdef']],
+                                      persistent=persistent, **kw)
+                else:
+                    blk = edzed.InputExp(f"b{i}", duration=10 ** 6, initdef=DOMAIN[case['initdef']],
+                                         expired=DOMAIN[case['expired']], **kw)
+            except Exception as err:    # pylint: disable=broad-except
+                # initdef/expired are valid according to the reference
+                ctx.violation(case, f"valid-initdef-refused-{case['kind']}",
+                              f"{case['kind']} refused a valid initdef/expired "
+                              f"(initdef={DOMAIN[case['initdef']]!r}, expired="
+                              f"{DOMAIN[case['expired']]!r}): {err!r}")
+                blk = None
             blocks.append(blk)
         return blocks
 
     async def drive(sim, blocks):
         for i, (case, blk) in enumerate(zip(batch, blocks)):
+            if blk is None:
+                done[i] = True
+                continue
             try:
                 check_one(case, blk, vals[i], sim, ctx)
             except core.Violation as v:
